@@ -86,14 +86,14 @@ def run(rep):
     if "LayoutIndependent" not in bad.violated:
         raise Machinery("Slots self-test: index-based wiring was not rejected (%s)" % (bad.violated or bad.errors[:2]))
     rep.notes["slots_selftest"] = "index-based wiring violates LayoutIndependent after %d states" % bad.distinct
-    rep.add_tlc("C15.enum_own (families CO / FF / FV / TX and the histories; MiniJS invariants on every state of every program in the fragment)", own)
+    rep.add_tlc("C15.enum_own (families CO / WS / FF / FV / TX and the histories; MiniJS invariants on every state of every program in the fragment)", own)
     own_progs, hists = own_space(rep, own)
     nfam = {}
     for p in own_progs:
         nfam[p["fam"]] = nfam.get(p["fam"], 0) + 1
     for h in hists:
         nfam[h["fam"]] = nfam.get(h["fam"], 0) + 1
-    for f in ("CO", "FF", "FV", "TX", "HF", "HT"):
+    for f in ("CO", "WS", "FF", "FV", "TX", "HF", "HT"):
         if not nfam.get(f):
             raise Machinery("enumeration of spec/C15.tla produced no %s item" % f)
     rep.spaces.append({"space": "C15 families (TLC-enumerated): " + ", ".join("%s=%d" % kv for kv in sorted(nfam.items())),
@@ -250,7 +250,7 @@ def run(rep):
     results = {it["id"]: {"log": obs[it["id"]][0]["log"], "out": obs[it["id"]][0]["out"]} for it in ast_items}
     jv = c05.judge(rep, "C15", recs, enumerated=False)
     for it in ast_items:
-        if it["fam"] in ("CO", "FF", "FV") and jv[it["id"]]["v"] == "skip":
+        if it["fam"] in ("CO", "WS", "FF", "FV") and jv[it["id"]]["v"] == "skip":
             raise Machinery("reference machine could not run an enumerated program (%s): %s" % (jv[it["id"]].get("why"), it["id"]))
     c05.report(rep, ast_items, results, jv)
     rep.spaces.append({"space": "programs x hash seeds (separate processes) + shuffled in-process batches (each back to back and with "
